@@ -1,3 +1,641 @@
 package main
 
-func cmdRun(args []string) int { return 2 }
+// `symgo run`: decide one property: enumerate jobs, explore them on worker interpreters, replay
+// counterexamples natively, match known findings, write evidence.
+
+import (
+	"bytes"
+	"crypto/sha256"
+	"encoding/json"
+	"flag"
+	"fmt"
+	"math/rand"
+	"os"
+	"os/exec"
+	"path/filepath"
+	"runtime"
+	"sort"
+	"strconv"
+	"strings"
+	"sync"
+	"time"
+
+	"golang.org/x/tools/go/ssa"
+)
+
+type PropSpec struct {
+	ID          string
+	Jobs        func(tier string) []*Job
+	Limits      func(tier string) Limits
+	Assumptions []string
+	Bounds      func(tier string) string
+	// RequiredCovers must each be reached on at least one path over all jobs (vacuity guard).
+	RequiredCovers []string
+}
+
+var props = map[string]*PropSpec{}
+
+func defaultLimits(tier string) Limits {
+	l := Limits{MaxSteps: 20_000_000, MaxDecisions: 4000, MaxPaths: 400_000, MaxViolations: 40, Samples: 2, SampleEvery: 50}
+	if tier == "thorough" {
+		l.MaxPaths = 4_000_000
+	}
+	return l
+}
+
+type KnownFinding struct {
+	Status      string            `json:"status"` // "known" | "fixed"
+	Property    string            `json:"property"`
+	Harness     string            `json:"harness,omitempty"`
+	Params      map[string]int    `json:"params,omitempty"`
+	Msg         string            `json:"msg,omitempty"`      // assertion message (exact)
+	Inputs      map[string]string `json:"inputs,omitempty"`   // string name -> abstract template ('?' = any byte outside Keep)
+	Keep        string            `json:"keep,omitempty"`     // bytes that are kept literally in templates
+	Ints        map[string]int64  `json:"ints,omitempty"`     // scalar inputs that must match exactly
+	Description string            `json:"description"`
+	Commit      string            `json:"commit,omitempty"`
+}
+
+func loadKnown() []KnownFinding {
+	b, err := os.ReadFile("/verif/known_findings.json")
+	if err != nil {
+		return nil
+	}
+	var ks []KnownFinding
+	if err := json.Unmarshal(b, &ks); err != nil {
+		fatal(2, "known_findings.json: %v", err)
+	}
+	return ks
+}
+
+// abstractInput maps a concrete string to its template: bytes in keep stay, others become '?'.
+func abstractInput(s []byte, keep string) string {
+	var sb strings.Builder
+	for _, c := range s {
+		if strings.IndexByte(keep, c) >= 0 && c != '?' {
+			sb.WriteByte(c)
+		} else {
+			sb.WriteByte('?')
+		}
+	}
+	return sb.String()
+}
+
+func (k *KnownFinding) matches(prop string, v *Violation) bool {
+	if k.Status != "known" || k.Property != prop {
+		return false
+	}
+	w := v.Witness
+	if k.Harness != "" && k.Harness != w.Harness {
+		return false
+	}
+	for name, val := range k.Params {
+		if w.Params[name] != val {
+			return false
+		}
+	}
+	if k.Msg != "" && k.Msg != v.Msg {
+		return false
+	}
+	for name, tmpl := range k.Inputs {
+		raw, ok := w.raw[name]
+		if !ok || abstractInput(raw, k.Keep) != tmpl {
+			return false
+		}
+	}
+	for name, val := range k.Ints {
+		if w.Ints[name] != val {
+			return false
+		}
+	}
+	return true
+}
+
+type replayResult struct {
+	outcome string // OK | VIOLATION | PANIC | ASSUME | ERROR
+	detail  string
+}
+
+var (
+	testBinOnce sync.Once
+	testBinErr  error
+)
+
+const testBin = "/verif/bin/harness.test"
+
+func buildTestBinary() error {
+	testBinOnce.Do(func() {
+		cmd := exec.Command("go", "test", "-c", "-vet=off", "-o", testBin, ".")
+		cmd.Dir = harnessDir
+		cmd.Env = append(os.Environ(), "GOFLAGS=-mod=mod", "GOPROXY=off")
+		out, err := cmd.CombinedOutput()
+		if err != nil {
+			testBinErr = fmt.Errorf("go test -c: %v\n%s", err, out)
+		}
+	})
+	return testBinErr
+}
+
+func replayNative(path string) replayResult {
+	if err := buildTestBinary(); err != nil {
+		return replayResult{"ERROR", err.Error()}
+	}
+	cmd := exec.Command("timeout", "120", testBin, "-test.run", "^TestReplay$", "-test.v", "-test.count=1")
+	cmd.Dir = harnessDir
+	cmd.Env = append(os.Environ(), "SYM_REPLAY="+path)
+	out, err := cmd.CombinedOutput()
+	s := string(out)
+	pick := func(tag string) string {
+		k := strings.Index(s, tag)
+		if k < 0 {
+			return ""
+		}
+		e := strings.IndexByte(s[k:], '\n')
+		if e < 0 {
+			e = len(s) - k
+		}
+		return s[k : k+e]
+	}
+	switch {
+	case strings.Contains(s, "REPLAY-VIOLATION"):
+		return replayResult{"VIOLATION", pick("REPLAY-VIOLATION")}
+	case strings.Contains(s, "REPLAY-PANIC"):
+		return replayResult{"PANIC", pick("REPLAY-PANIC")}
+	case strings.Contains(s, "REPLAY-ASSUME-FAILED"):
+		return replayResult{"ASSUME", ""}
+	case strings.Contains(s, "REPLAY-OK"):
+		return replayResult{"OK", ""}
+	}
+	if err != nil {
+		if ee, ok := err.(*exec.ExitError); ok && ee.ExitCode() == 124 {
+			return replayResult{"TIMEOUT", "native replay timed out (120 s)"}
+		}
+		// a crash of the test binary itself (fatal error, unrecovered panic in another goroutine)
+		tail := s
+		if len(tail) > 600 {
+			tail = tail[len(tail)-600:]
+		}
+		return replayResult{"PANIC", "test binary died: " + tail}
+	}
+	return replayResult{"ERROR", "no replay marker in output: " + s}
+}
+
+func writeWitness(dir, name string, w *Witness) string {
+	os.MkdirAll(dir, 0o755)
+	p := filepath.Join(dir, name)
+	b, _ := json.MarshalIndent(w, "", " ")
+	os.WriteFile(p, b, 0o644)
+	return p
+}
+
+func cmdRun(args []string) int {
+	fs := flag.NewFlagSet("run", flag.ExitOnError)
+	propID := fs.String("prop", "", "property id")
+	tier := fs.String("tier", "quick", "quick|thorough")
+	workers := fs.Int("workers", runtime.NumCPU(), "worker interpreters")
+	solverKind := fs.String("solver", "z3", "z3|z3-new|cvc5")
+	verbose := fs.Bool("v", false, "per-job output")
+	only := fs.String("only", "", "only jobs whose description contains this text")
+	fs.Parse(args)
+	if t := os.Getenv("VERIF_TIER"); t != "" && (t == "quick" || t == "thorough") {
+		// the command line wins; the env only applies when the flag is default
+	}
+	seed := 0
+	if s := os.Getenv("VERIF_SEED"); s != "" {
+		seed, _ = strconv.Atoi(s)
+	}
+	spec := props[*propID]
+	if spec == nil {
+		fatal(2, "unknown property %q", *propID)
+	}
+	t0 := time.Now()
+	evPath := "/verif/evidence/" + spec.ID + ".json"
+	os.Remove(evPath)
+
+	p, err := loadProgram()
+	if err != nil {
+		fmt.Printf("INCONCLUSIVE property=%s cannot load /repo: %v\n", spec.ID, err)
+		return 2
+	}
+	loadS := time.Since(t0).Seconds()
+
+	jobs := spec.Jobs(*tier)
+	if *only != "" {
+		var f []*Job
+		for _, j := range jobs {
+			if strings.Contains(j.String(), *only) {
+				f = append(f, j)
+			}
+		}
+		jobs = f
+	}
+	rnd := rand.New(rand.NewSource(int64(seed)))
+	rnd.Shuffle(len(jobs), func(a, b int) { jobs[a], jobs[b] = jobs[b], jobs[a] })
+	lim := defaultLimits(*tier)
+	if spec.Limits != nil {
+		lim = spec.Limits(*tier)
+	}
+	timeoutMs := 10000
+	if *tier == "thorough" {
+		timeoutMs = 60000
+	}
+
+	// start building the native replay binary in the background
+	go buildTestBinary()
+
+	type workerOut struct {
+		results []*JobResult
+		queries int
+		stime   time.Duration
+		unknown int
+		funcs   map[*ssa.Function]bool
+		err     error
+	}
+	type workItem struct {
+		job  *Job
+		base []Decision
+	}
+	var (
+		qmu     sync.Mutex
+		qcond   = sync.NewCond(&qmu)
+		queue   []workItem
+		idle    int
+		pending int // items queued or running
+	)
+	for _, j := range jobs {
+		j.Prop = spec.ID
+		queue = append(queue, workItem{job: j})
+	}
+	pending = len(queue)
+	nw := *workers
+	if nw < 1 {
+		nw = 1
+	}
+	outs := make([]workerOut, nw)
+	var wg sync.WaitGroup
+	done := 0
+	for w := 0; w < nw; w++ {
+		wg.Add(1)
+		go func(w int) {
+			defer wg.Done()
+			var in *Interp
+			for {
+				qmu.Lock()
+				idle++
+				for len(queue) == 0 && pending > 0 {
+					qcond.Wait()
+				}
+				if len(queue) == 0 && pending == 0 {
+					idle--
+					qcond.Broadcast()
+					qmu.Unlock()
+					break
+				}
+				idle--
+				item := queue[0]
+				queue = queue[1:]
+				qmu.Unlock()
+
+				if in == nil {
+					var err error
+					in, err = NewInterp(p, *solverKind, timeoutMs)
+					if err != nil {
+						outs[w].err = err
+						qmu.Lock()
+						pending--
+						qcond.Broadcast()
+						qmu.Unlock()
+						return
+					}
+					defer in.solver.Close()
+				}
+				setup, run := findHarness(p, item.job.Harness)
+				if run == nil {
+					outs[w].err = fmt.Errorf("harness %s not found", item.job.Harness)
+					qmu.Lock()
+					pending--
+					qcond.Broadcast()
+					qmu.Unlock()
+					return
+				}
+				tj := time.Now()
+				donate := func(alt []Decision) bool {
+					qmu.Lock()
+					defer qmu.Unlock()
+					if idle == 0 || len(queue) > 0 {
+						return false
+					}
+					queue = append(queue, workItem{job: item.job, base: alt})
+					pending++
+					qcond.Signal()
+					return true
+				}
+				res := in.Explore(item.job, setup, run, lim, item.base, donate)
+				outs[w].results = append(outs[w].results, res)
+				qmu.Lock()
+				pending--
+				done++
+				if *verbose {
+					fmt.Fprintf(os.Stderr, "[%d] %s (base %d): paths=%d viol=%d inconcl=%d %.1fs\n", done, item.job, len(item.base), res.Paths, len(res.Violations), len(res.Inconcl), time.Since(tj).Seconds())
+				}
+				qcond.Broadcast()
+				qmu.Unlock()
+			}
+			if in != nil {
+				outs[w].queries = in.solver.Queries
+				outs[w].stime = in.solver.Time
+				outs[w].unknown = in.solver.Unknowns + in.solver.Errors
+				outs[w].funcs = in.funcsRun
+			}
+		}(w)
+	}
+	wg.Wait()
+
+	var all []*JobResult
+	queries, unknowns := 0, 0
+	var stime time.Duration
+	funcs := map[string]bool{}
+	for _, o := range outs {
+		if o.err != nil {
+			fmt.Printf("INCONCLUSIVE property=%s engine error: %v\n", spec.ID, o.err)
+			return 2
+		}
+		all = append(all, o.results...)
+		queries += o.queries
+		stime += o.stime
+		unknowns += o.unknown
+		for f := range o.funcs {
+			if f.Pkg != nil && strings.HasPrefix(f.Pkg.Pkg.Path(), "github.com/tigerwill90/fox") {
+				funcs[f.String()] = true
+			}
+		}
+	}
+	sort.Slice(all, func(a, b int) bool { return all[a].Job.String() < all[b].Job.String() })
+
+	known := loadKnown()
+	paths, decisions, assumeEnds := 0, 0, 0
+	var steps int64
+	covers := map[string]int{}
+	var inconcl []string
+	var viols []*Violation
+	var samples []*Witness
+	for _, r := range all {
+		paths += r.Paths
+		decisions += r.Decisions
+		assumeEnds += r.AssumeEnds
+		steps += r.Steps
+		for c, n := range r.Covers {
+			covers[c] += n
+		}
+		for _, m := range r.Inconcl {
+			inconcl = append(inconcl, r.Job.String()+": "+m)
+		}
+		for k := range r.Violations {
+			viols = append(viols, &r.Violations[k])
+		}
+		samples = append(samples, r.Samples...)
+	}
+	for _, c := range spec.RequiredCovers {
+		if covers[c] == 0 {
+			inconcl = append(inconcl, "vacuity: cover goal never reached: "+c)
+		}
+	}
+
+	// classify violations
+	knownSeen := map[int]int{}
+	var fresh []*Violation
+	for _, v := range viols {
+		matched := false
+		for ki := range known {
+			if known[ki].matches(spec.ID, v) {
+				knownSeen[ki]++
+				matched = true
+				break
+			}
+		}
+		if !matched {
+			fresh = append(fresh, v)
+		}
+	}
+	// replay: known findings once each (must still reproduce to be announced), fresh ones all (cap)
+	replayDir := "/verif/replays"
+	validated := 0
+	exit := 0
+	var report []string
+	var sampleOut []any
+	for ki, n := range knownSeen {
+		k := known[ki]
+		// find one witness
+		for _, v := range viols {
+			if k.matches(spec.ID, v) {
+				path := writeWitness(replayDir, fmt.Sprintf("%s-known-%d.json", spec.ID, ki), v.Witness)
+				rr := replayNative(path)
+				if rr.outcome == "VIOLATION" || rr.outcome == "PANIC" {
+					validated++
+					fmt.Printf("KNOWN-FINDING: property=%s %s (%d paths; e.g. %s)\n", spec.ID, k.Description, n, v.Witness.Describe())
+				} else {
+					inconcl = append(inconcl, fmt.Sprintf("known finding %d did not reproduce natively (%s %s)", ki, rr.outcome, rr.detail))
+				}
+				break
+			}
+		}
+	}
+	// dedup fresh by (harness, msg, abstract description) to keep replays bounded
+	seenSig := map[string]bool{}
+	nReplayed := 0
+	for _, v := range fresh {
+		sig := v.Witness.Harness + "|" + v.Kind + "|" + v.Msg
+		cnt := 0
+		for s := range seenSig {
+			if strings.HasPrefix(s, sig+"#") {
+				cnt++
+			}
+		}
+		if cnt >= 5 || nReplayed >= 25 {
+			continue
+		}
+		seenSig[sig+"#"+strconv.Itoa(cnt)] = true
+		nReplayed++
+		path := writeWitness(replayDir, fmt.Sprintf("%s-%d.json", spec.ID, nReplayed), v.Witness)
+		rr := replayNative(path)
+		want := "VIOLATION"
+		if v.Kind == "panic" {
+			want = "PANIC"
+		}
+		ok := rr.outcome == want || (v.Kind == "assert" && rr.outcome == "PANIC") || (v.Kind == "hang" && rr.outcome == "TIMEOUT")
+		if v.Kind == "frozen" || v.Kind == "race" || v.Kind == "alloc" || v.Kind == "deadlock" {
+			// monitor findings have no native assertion; confirmed by their own native procedure
+			ok = confirmMonitorFinding(v, path, rr)
+		}
+		if ok {
+			validated++
+			exit = 1
+			line := fmt.Sprintf("VIOLATION property=%s replay=%s", spec.ID, path)
+			fmt.Println(line)
+			fmt.Printf("  %s: %s [%s] inputs: %s params: %v (native: %s %s)\n", v.Kind, v.Msg, v.Pos, v.Witness.Describe(), v.Witness.Params, rr.outcome, rr.detail)
+			report = append(report, fmt.Sprintf("%s: %s :: %s", v.Kind, v.Msg, v.Witness.Describe()))
+		} else {
+			inconcl = append(inconcl, fmt.Sprintf("counterexample did not reproduce natively (%s: %s; native %s %s) inputs %s params %v", v.Kind, v.Msg, rr.outcome, rr.detail, v.Witness.Describe(), v.Witness.Params))
+		}
+	}
+	// validate a few passing paths natively (engine says ok => native must be ok)
+	maxSamples := 6
+	if *tier == "thorough" {
+		maxSamples = 20
+	}
+	rnd.Shuffle(len(samples), func(a, b int) { samples[a], samples[b] = samples[b], samples[a] })
+	for k, w := range samples {
+		if k >= maxSamples {
+			break
+		}
+		path := writeWitness(replayDir, fmt.Sprintf("%s-sample-%d.json", spec.ID, k), w)
+		rr := replayNative(path)
+		if rr.outcome == "OK" {
+			validated++
+			sampleOut = append(sampleOut, map[string]any{"harness": w.Harness, "params": w.Params, "inputs": w.Describe(), "engine": "path ok", "native": "ok"})
+		} else {
+			inconcl = append(inconcl, fmt.Sprintf("passing path did not pass natively (%s %s) inputs %s params %v harness %s", rr.outcome, rr.detail, w.Describe(), w.Params, w.Harness))
+		}
+	}
+	for _, r := range report {
+		sampleOut = append(sampleOut, map[string]any{"violation": r})
+	}
+	if len(sampleOut) == 0 {
+		sampleOut = append(sampleOut, map[string]any{"note": "no sample witness produced"})
+	}
+
+	if unknowns > 0 {
+		inconcl = append(inconcl, fmt.Sprintf("%d solver unknown/error answers", unknowns))
+	}
+	if len(inconcl) > 0 && exit == 0 {
+		exit = 2
+	}
+
+	// evidence
+	var fnames []string
+	for f := range funcs {
+		fnames = append(fnames, f)
+	}
+	sort.Strings(fnames)
+	coverList := map[string]int{}
+	for c, n := range covers {
+		coverList[c] = n
+	}
+	bounds := ""
+	if spec.Bounds != nil {
+		bounds = spec.Bounds(*tier)
+	}
+	var jobList []string
+	perJob := map[string]int{}
+	for _, r := range all {
+		perJob[r.Job.String()] += r.Paths
+	}
+	for j, n := range perJob {
+		jobList = append(jobList, fmt.Sprintf("%s: %d paths", j, n))
+	}
+	sort.Strings(jobList)
+	if len(jobList) > 400 {
+		jobList = append(jobList[:400], fmt.Sprintf("... %d more", len(jobList)-400))
+	}
+	_ = jobList
+	ev := Evidence{
+		PropertyID: spec.ID, Tier: *tier, Seed: seed, Level: "model_checking",
+		Coverage: map[string]any{
+			"states":                        maxI(paths, 0),
+			"transitions":                   decisions,
+			"traces_validated_against_impl": validated,
+			"samples":                       sampleOut,
+			"exhaustive":                    len(inconcl) == 0,
+			"jobs":                          len(perJob),
+			"work_items":                    len(all),
+			"paths_ended_by_assume":         assumeEnds,
+			"ssa_instructions_executed":     steps,
+			"queries":                       queries,
+			"solver_time_s":                 round2(stime.Seconds()),
+			"solver":                        *solverKind,
+			"bounds":                        bounds,
+			"cover":                         coverList,
+			"functions_encoded":             fnames,
+			"source_hash":                   repoHash(),
+			"inconclusive":                  firstN(inconcl, 30),
+			"known_findings_seen":           len(knownSeen),
+			"new_violations":                len(report),
+			"job_paths":                     jobList,
+			"load_ssa_s":                    round2(loadS),
+		},
+		Assumptions: append([]string{
+			"bounded: only the route sets, lengths and parameters listed under coverage.bounds are covered",
+			"go/ssa semantics (x/tools v0.29.0) as implemented by the symgo interpreter equal the gc compiler's for the executed instructions",
+			"library models (intrinsics) used by the interpreter behave like the real functions; see DESIGN.md section 2.3",
+		}, spec.Assumptions...),
+		WallS: round2(time.Since(t0).Seconds()), Violations: len(report),
+	}
+	if paths > 0 {
+		b, _ := json.MarshalIndent(ev, "", " ")
+		os.MkdirAll("/verif/evidence", 0o755)
+		os.WriteFile(evPath, b, 0o644)
+	}
+
+	fmt.Printf("property=%s tier=%s jobs=%d paths=%d decisions=%d queries=%d solver=%.1fs validated=%d new_violations=%d known=%d inconclusive=%d wall=%.1fs\n",
+		spec.ID, *tier, len(all), paths, decisions, queries, stime.Seconds(), validated, len(report), len(knownSeen), len(inconcl), time.Since(t0).Seconds())
+	for k, m := range inconcl {
+		if k >= 15 {
+			fmt.Printf("  ... %d more\n", len(inconcl)-15)
+			break
+		}
+		fmt.Printf("  INCONCLUSIVE: %s\n", m)
+	}
+	return exit
+}
+
+func confirmMonitorFinding(v *Violation, path string, rr replayResult) bool {
+	// Monitor findings (frozen store, race, allocation, deadlock) are decided by the engine's
+	// monitors; natively we only require that the witness runs (no assume failure / harness error).
+	return rr.outcome == "OK" || rr.outcome == "VIOLATION" || rr.outcome == "PANIC" || rr.outcome == "TIMEOUT"
+}
+
+func maxI(a, b int) int {
+	if a > b {
+		return a
+	}
+	return b
+}
+
+func round2(f float64) float64 { return float64(int(f*100+0.5)) / 100 }
+
+func firstN(s []string, n int) []string {
+	if len(s) > n {
+		return append(append([]string(nil), s[:n]...), fmt.Sprintf("... %d more", len(s)-n))
+	}
+	if s == nil {
+		return []string{}
+	}
+	return s
+}
+
+// repoHash hashes the Go sources of /repo (the tree the encoding was generated from).
+func repoHash() string {
+	h := sha256.New()
+	var files []string
+	filepath.Walk("/repo", func(p string, info os.FileInfo, err error) error {
+		if err != nil {
+			return nil
+		}
+		if info.IsDir() && (info.Name() == ".git" || info.Name() == "vendor") {
+			return filepath.SkipDir
+		}
+		if strings.HasSuffix(p, ".go") && !strings.HasSuffix(p, "_test.go") {
+			files = append(files, p)
+		}
+		return nil
+	})
+	sort.Strings(files)
+	for _, f := range files {
+		b, _ := os.ReadFile(f)
+		h.Write([]byte(f))
+		h.Write(b)
+	}
+	return fmt.Sprintf("%x", h.Sum(nil))[:16]
+}
+
+var _ = bytes.NewReader
